@@ -887,6 +887,17 @@ func (f *transformationCallable) clone(v reflect.Value) (reflect.Value, error) {
 		return undefined, nil
 	}
 
+	// Values that are made of the container types used for
+	// JSON data are copied directly. That keeps the values
+	// JSON cannot carry: the null literal (a typed nil, which
+	// a JSON round trip would turn into a missing value),
+	// functions and strings that are not valid UTF-8.
+	if v.CanInterface() {
+		if c, ok := copyJSONValue(v.Interface(), 0); ok {
+			return reflect.ValueOf(c), nil
+		}
+	}
+
 	s, err := jlib.String(v.Interface())
 	if err != nil {
 		return undefined, err
@@ -899,6 +910,50 @@ func (f *transformationCallable) clone(v reflect.Value) (reflect.Value, error) {
 	}
 
 	return reflect.ValueOf(dest), nil
+}
+
+// copyJSONValue returns a deep copy of a value whose containers
+// are all of the types encoding/json decodes into. It reports
+// false if the value contains a container of any other type
+// (or is nested implausibly deeply, e.g. because it is cyclic).
+func copyJSONValue(v interface{}, depth int) (interface{}, bool) {
+
+	if depth > 10000 {
+		return nil, false
+	}
+
+	switch v := v.(type) {
+	case map[string]interface{}:
+		m := make(map[string]interface{}, len(v))
+		for key, value := range v {
+			c, ok := copyJSONValue(value, depth+1)
+			if !ok {
+				return nil, false
+			}
+			m[key] = c
+		}
+		return m, true
+	case []interface{}:
+		s := make([]interface{}, len(v))
+		for i, value := range v {
+			c, ok := copyJSONValue(value, depth+1)
+			if !ok {
+				return nil, false
+			}
+			s[i] = c
+		}
+		return s, true
+	case nil, string, float64, bool, *interface{}, jtypes.Callable:
+		return v, true
+	}
+
+	switch reflect.ValueOf(v).Kind() {
+	case reflect.Map, reflect.Slice, reflect.Array, reflect.Struct,
+		reflect.Ptr, reflect.Interface, reflect.Func, reflect.Chan:
+		return nil, false
+	default:
+		return v, true
+	}
 }
 
 // A regexCallable represents a JSONata regular expression. It's
